@@ -6,6 +6,8 @@
 // constructor that threw there is no container: no element object may remain alive in its storage.
 #pragma once
 #include "c14_static.hpp"
+#include "listlike.hpp"
+#include <string>
 #include <utility>
 
 namespace c14
@@ -254,9 +256,49 @@ namespace c14
         tc.variant = variant;
         tc.run(op, s, a, k);
     }
+    // ------------------------------------------------------------------ emplace_back with several arguments
+    // emplace_back(args...) must construct T(args...). With an element type that also has an initializer_list
+    // constructor (std::string, vector-like types) T{args...} is a different object.
+    template <class Tr> void emplace_multiarg_body(const string &variant)
+    {
+        int c = mc::choose(4 * 3 * 3);
+        int count = c % 4, v = 5 + c / 4 % 3, pre = c / 12;
+        mc::describe("%s: emplace_back(%d, %d) / emplace_back(%d, 'x') after %d element(s)", variant.c_str(), count, v, count, pre);
+        mc::nontrivial();
+        mc::crash_context("C14.%s.emplace_back_multiarg.crash", variant.c_str());
+        {
+            typename Tr::template vec<ll::ListLike, 3> sv;
+            for (int i = 0; i < pre; i++)
+                sv.emplace_back(1, i);
+            sv.emplace_back(count, v);
+            ll::ListLike want(count, v);
+            if (sv.size() != (size_t)pre + 1 || !(sv[pre] == want))
+            {
+                mc::violation(mc::fmt("C14.%s.emplace_back_multiarg.contents", variant.c_str()), "emplace_back(%d, %d) stored %s, T(%d, %d) is %s", count, v,
+                              sv.size() > (size_t)pre ? sv[pre].str().c_str() : "nothing", count, v, want.str().c_str());
+                return;
+            }
+        }
+        {
+            typename Tr::template vec<std::string, 3> sv;
+            for (int i = 0; i < pre; i++)
+                sv.emplace_back("p");
+            sv.emplace_back((size_t)count, 'x');
+            std::string want((size_t)count, 'x');
+            if (sv.size() != (size_t)pre + 1 || sv[pre] != want)
+            {
+                mc::violation(mc::fmt("C14.%s.emplace_back_multiarg.contents", variant.c_str()), "emplace_back(%d, 'x') on a static_vector<std::string> stored a string of length %zu, std::string(%d, 'x') has %zu", count,
+                              sv.size() > (size_t)pre ? sv[pre].size() : (size_t)0, count, want.size());
+                return;
+            }
+        }
+        mc::outcome(mc::fmt("%d", count));
+    }
+
     template <class Tr> void register_throwing()
     {
         string n = Tr::name;
+        mc::add_check(n + "_vector_emplace_multiarg", [n] { emplace_multiarg_body<Tr>(n + "_vector"); });
         mc::add_check(n + "_vector_throwing_elements", [n] {
             // the first choice combines N with everything else: wide enough to shard
             int c = mc::choose(3 * 11 * 4 * 7 * 4);
